@@ -238,7 +238,7 @@ func e2eC09GenPeers(r *rand.Rand, rt *refmodel.C09Router) []*e2eC09Peer {
 func TestVerifE2E_C09(t *testing.T) {
 	rec := vlib.Open("C09")
 	defer rec.Close()
-	total := vlib.Scale(320, 6400)
+	total := vlib.Scale(480, 9600)
 	vlib.Cases(total, func(idx int) {
 		rec.Mark(fmt.Sprintf("e2e c09 scenario %d", idx), true)
 		synctest.Test(t, func(t *testing.T) { e2eC09Scenario1(t, rec, idx) })
@@ -594,6 +594,13 @@ func (sc *e2eC09Scenario) judge(src *e2eC09Peer, s *e2eC09Sent, views map[string
 			rec.Violation("e2e:c09:"+pair+":"+x.Rule, fmt.Sprintf("%s -> %s: %s", src.name, dst.name, x.Detail), wit(map[string]any{"received": e2eObsText(out), "all_mismatches": fmt.Sprint(mm), "raw_message": e2eRxLog(dst.sp, 3)}))
 		}
 		rec.Count("e2e:c09:attribute_checks", 1)
+		for _, u := range s.in.Unknown {
+			if u.Flags&uint8(bgp.BGP_ATTR_FLAG_TRANSITIVE) != 0 {
+				rec.Count("e2e:c09:rule:unknown-transitive-passed-on", 1)
+			} else if dk == refmodel.C09EBGP {
+				rec.Count("e2e:c09:rule:unknown-nontransitive-dropped", 1)
+			}
+		}
 		ps, pu := refmodel.C09PartialCount(out)
 		rec.Count("e2e:c09:unknown_transitive_partial_set", ps)
 		rec.Count("e2e:c09:unknown_transitive_partial_unset", pu)
